@@ -164,29 +164,152 @@ type parrotOut struct {
 	Name     string // without the Hello prefix
 	ID       tls.ClientHelloID
 	Spec     tls.ClientHelloSpec // draw 0
-	Exts     []string            // draw 0, rendered
-	Draws    [][]string          // draws 1..15 rendered (only kept when some draw differs from draw 0)
+	Exts     []string            // rendered extension list; for shuffling ids in CANONICAL order (see canonical)
+	Kinds    []extKind           // per entry of Exts
 	Shuffles bool
 }
 
-type genResult struct {
-	Parrots  []parrotOut
-	Rejected []string          // ids UTLSIdToSpec refuses
-	Randomized []string        // helloRandomized* ids: generated per connection, no fixed spec
-	Aliases  map[string]string // alias -> target
-	Source   []srcID
+// extKind: what the property needs to know about a spec extension, from its Go TYPE alone.
+type extKind struct {
+	ID    uint16 // extension_type; 0x0a0a for GREASE
+	Fixed bool   // GREASE, padding or pre_shared_key: positionally invariant under the Chrome shuffle
+	Known bool
 }
 
-func renderExts(exts []tls.TLSExtension) ([]string, error) {
+func kindOf(e tls.TLSExtension) extKind {
+	k := func(id uint16) extKind { return extKind{ID: id, Known: true} }
+	switch x := e.(type) {
+	case *tls.UtlsGREASEExtension:
+		return extKind{ID: 0x0a0a, Fixed: true, Known: true}
+	case *tls.UtlsPaddingExtension:
+		return extKind{ID: 21, Fixed: true, Known: true}
+	case *tls.UtlsPreSharedKeyExtension, *tls.FakePreSharedKeyExtension:
+		return extKind{ID: 41, Fixed: true, Known: true}
+	case *tls.SNIExtension:
+		return k(0)
+	case *tls.StatusRequestExtension:
+		return k(5)
+	case *tls.SupportedCurvesExtension:
+		return k(10)
+	case *tls.SupportedPointsExtension:
+		return k(11)
+	case *tls.SignatureAlgorithmsExtension:
+		return k(13)
+	case *tls.ALPNExtension:
+		return k(16)
+	case *tls.StatusRequestV2Extension:
+		return k(17)
+	case *tls.SCTExtension:
+		return k(18)
+	case *tls.ExtendedMasterSecretExtension:
+		return k(23)
+	case *tls.FakeTokenBindingExtension:
+		return k(24)
+	case *tls.UtlsCompressCertExtension:
+		return k(27)
+	case *tls.FakeRecordSizeLimitExtension:
+		return k(28)
+	case *tls.FakeDelegatedCredentialsExtension:
+		return k(34)
+	case *tls.SessionTicketExtension:
+		return k(35)
+	case *tls.SupportedVersionsExtension:
+		return k(43)
+	case *tls.CookieExtension:
+		return k(44)
+	case *tls.PSKKeyExchangeModesExtension:
+		return k(45)
+	case *tls.SignatureAlgorithmsCertExtension:
+		return k(50)
+	case *tls.KeyShareExtension:
+		return k(51)
+	case *tls.QUICTransportParametersExtension:
+		return k(57)
+	case *tls.NPNExtension:
+		return k(13172)
+	case *tls.ApplicationSettingsExtension:
+		return k(17513)
+	case *tls.ApplicationSettingsExtensionNew:
+		return k(17613)
+	case *tls.FakeChannelIDExtension:
+		if x.OldExtensionID {
+			return k(30031)
+		}
+		return k(30032)
+	case *tls.GREASEEncryptedClientHelloExtension:
+		return k(0xfe0d)
+	case *tls.RenegotiationInfoExtension:
+		return k(0xff01)
+	case *tls.GenericExtension:
+		return k(x.Id)
+	}
+	return extKind{}
+}
+
+// canonical reorders the non-fixed entries of a shuffling id's list by (extension type, rendered term);
+// fixed entries keep their slots. The result does not depend on the draw, so the generated file is stable.
+func canonical(ex []string, ks []extKind) ([]string, []extKind) {
+	var idx []int
+	for i, k := range ks {
+		if !k.Fixed {
+			idx = append(idx, i)
+		}
+	}
+	srt := append([]int(nil), idx...)
+	sort.SliceStable(srt, func(a, b int) bool {
+		if ks[srt[a]].ID != ks[srt[b]].ID {
+			return ks[srt[a]].ID < ks[srt[b]].ID
+		}
+		return ex[srt[a]] < ex[srt[b]]
+	})
+	oe, ok := append([]string(nil), ex...), append([]extKind(nil), ks...)
+	for n, slot := range idx {
+		oe[slot], ok[slot] = ex[srt[n]], ks[srt[n]]
+	}
+	return oe, ok
+}
+
+// sameShuffleClass: d is a rearrangement of base that keeps every fixed entry in place ("" when it is).
+func sameShuffleClass(base, d []string, kb, kd []extKind) string {
+	if len(base) != len(d) {
+		return fmt.Sprintf("length %d vs %d", len(d), len(base))
+	}
+	for i := range base {
+		if (kb[i].Fixed || kd[i].Fixed) && base[i] != d[i] {
+			return fmt.Sprintf("position %d holds %s, expected the positionally fixed %s", i, d[i], base[i])
+		}
+	}
+	a, b := append([]string(nil), base...), append([]string(nil), d...)
+	sort.Strings(a)
+	sort.Strings(b)
+	if strings.Join(a, ";") != strings.Join(b, ";") {
+		return "different multiset of extensions"
+	}
+	return ""
+}
+
+type genResult struct {
+	Parrots    []parrotOut
+	Rejected   []string          // ids UTLSIdToSpec refuses
+	Randomized []string          // helloRandomized* ids: generated per connection, no fixed spec
+	Aliases    map[string]string // alias -> target
+	Disagree   []string          // draws of one id that are not rearrangements of each other with the fixed entries in place
+	Source     []srcID
+}
+
+func renderExts(exts []tls.TLSExtension) ([]string, []extKind, error) {
 	var out []string
+	var ks []extKind
 	for i, e := range exts {
 		t, ok := sextTerm(e)
-		if !ok {
-			return nil, fmt.Errorf("extension #%d of type %T cannot be rendered as a Coq term", i, e)
+		k := kindOf(e)
+		if !ok || !k.Known {
+			return nil, nil, fmt.Errorf("extension #%d of type %T cannot be rendered as a Coq term", i, e)
 		}
 		out = append(out, t)
+		ks = append(ks, k)
 	}
-	return out, nil
+	return out, ks, nil
 }
 
 func loadParrots(repo string) (*genResult, error) {
@@ -211,7 +334,7 @@ func loadParrots(repo string) (*genResult, error) {
 			continue
 		}
 		p := parrotOut{Name: strings.TrimPrefix(s.Name, "Hello"), ID: id, Spec: spec}
-		if p.Exts, err = renderExts(spec.Extensions); err != nil {
+		if p.Exts, p.Kinds, err = renderExts(spec.Extensions); err != nil {
 			return nil, fmt.Errorf("%s: %v", s.Name, err)
 		}
 		for k := 1; k < draws; k++ {
@@ -219,9 +342,12 @@ func loadParrots(repo string) (*genResult, error) {
 			if err != nil {
 				return nil, fmt.Errorf("%s: draw %d: %v", s.Name, k, err)
 			}
-			ex, err := renderExts(sp.Extensions)
+			ex, kd, err := renderExts(sp.Extensions)
 			if err != nil {
 				return nil, fmt.Errorf("%s: draw %d: %v", s.Name, k, err)
+			}
+			if why := sameShuffleClass(p.Exts, ex, p.Kinds, kd); why != "" {
+				res.Disagree = append(res.Disagree, fmt.Sprintf("%s: UTLSIdToSpec call %d against call 1: %s", s.Name, k+1, why))
 			}
 			if sp.TLSVersMin != spec.TLSVersMin || sp.TLSVersMax != spec.TLSVersMax ||
 				vh.U16s(sp.CipherSuites) != vh.U16s(spec.CipherSuites) || vh.Bytes(sp.CompressionMethods) != vh.Bytes(spec.CompressionMethods) {
@@ -230,10 +356,9 @@ func loadParrots(repo string) (*genResult, error) {
 			if strings.Join(ex, ";") != strings.Join(p.Exts, ";") {
 				p.Shuffles = true
 			}
-			p.Draws = append(p.Draws, ex)
 		}
-		if !p.Shuffles {
-			p.Draws = nil
+		if p.Shuffles {
+			p.Exts, p.Kinds = canonical(p.Exts, p.Kinds)
 		}
 		res.Parrots = append(res.Parrots, p)
 	}
@@ -265,6 +390,9 @@ func emitParrots(r *genResult) string {
 	sb.WriteString("(* GENERATED by `harness/cmd/c03 gen` from u_common.go (go/parser: every Hello* ClientHelloID) and\n")
 	sb.WriteString("   UTLSIdToSpec of the compiled package (" + strconv.Itoa(draws) + " calls per id). Do not edit: the file is rewritten from the\n")
 	sb.WriteString("   tree under check before every proof build of C03; this copy is the snapshot of the last run.\n")
+	sb.WriteString("   For an id whose calls returned different extension orders (p_shuffles) the list is given in a canonical\n")
+	sb.WriteString("   order: GREASE / padding / pre_shared_key in their slots, the rest sorted by extension type; the translator\n")
+	sb.WriteString("   refuses to emit the file when two calls are not rearrangements of each other with those slots unchanged.\n")
 	fmt.Fprintf(&sb, "   ids in the source: %d; aliases: %d; rejected by UTLSIdToSpec: %d; randomized (no fixed spec): %d; parrots below: %d. *)\n",
 		len(r.Source), len(r.Aliases), len(r.Rejected), len(r.Randomized), len(r.Parrots))
 	sb.WriteString("From UV Require Import Base.Common Model.Ext Model.Preset.\nOpen Scope N_scope.\n\n")
@@ -274,11 +402,7 @@ func emitParrots(r *genResult) string {
 		fmt.Fprintf(&sb, "Definition %s : parrot := {|\n  p_name := %s;\n", coqIdent(p.Name), vh.Str(p.Name))
 		fmt.Fprintf(&sb, "  p_spec := {| sp_min := %d; sp_max := %d;\n    sp_suites := %s;\n    sp_comp := %s;\n    sp_exts := %s |};\n",
 			p.Spec.TLSVersMin, p.Spec.TLSVersMax, vh.U16s(p.Spec.CipherSuites), vh.Bytes(p.Spec.CompressionMethods), extList(p.Exts, "      "))
-		var ds []string
-		for _, d := range p.Draws {
-			ds = append(ds, extList(d, "      "))
-		}
-		fmt.Fprintf(&sb, "  p_draws := %s |}.\n\n", extList(ds, "    "))
+		fmt.Fprintf(&sb, "  p_shuffles := %s |}.\n\n", vh.Bool(p.Shuffles))
 	}
 	var names []string
 	for _, p := range r.Parrots {
@@ -325,6 +449,10 @@ func genMain(args []string) int {
 			fmt.Printf("c03 gen: alias %s points at unknown id %s\n", a, t)
 			return 1
 		}
+	}
+	if len(r.Disagree) > 0 {
+		fmt.Println("c03 gen: C03 FAILS on the specs themselves: " + strings.Join(r.Disagree, "; "))
+		return 1
 	}
 	txt := emitParrots(r)
 	if *out == "" {
